@@ -3,7 +3,9 @@
      _vnacal_new_get_parameter (vnacal_new_parameter.c), vnacal_new_set_m_error,
      _vnacal_new_solve_internal, _vnacal_new_solve_simple, _vnacal_new_solve_auto,
      _vnacal_new_solve_is_trl and vnacal_add_calibration,
-   as coded (with the repairs D14, D15, D21, D22 that are committed in the repository).
+   as coded at the current head of the repository (which includes the repairs D14, D15, D19, D21, D22
+   and the refusal of measurement matrices larger than the calibration / of abbreviated matrices whose
+   ports have no row or column).
    No proofs in this file.  The numeric part of a solve (LU / QR rank decisions, iteration,
    p-value, UE14->E12 conversion) is an uninterpreted oracle.  Allocation failure is not modelled.
 
@@ -164,20 +166,19 @@ Definition check_args (cf : config) (a : add_args) : verdict :=
   else if (match a_map a with None => negb ((sr =? P) && (sc =? P)) | Some _ => false end) then Reject
   else if negb ((a_brows a =? min_brows cf a) || (a_brows a =? r)) then Reject
   else if negb ((a_bcols a =? min_bcols cf a) || (a_bcols a =? c)) then Reject
+  else if (r <? a_brows a) || (c <? a_bcols a) then Reject        (* larger than the calibration matrix *)
   else
     match a_map a with
     | Some m =>
       if length m <? s_ports then Undefined                     (* the C code would read past the caller's array *)
+      else if existsb (fun p => ((a_brows a <? r) && (r <? p)) || ((a_bcols a <? c) && (c <? p))) (firstn s_ports m)
+      then Reject                                               (* abbreviated matrix, port without a row / column *)
       else if negb (map_ok P [] (firstn s_ports m)) then Reject
-      else if (r <? a_brows a) || (c <? a_bcols a) then Undefined       (* m_cell_map / m_row_given overrun *)
-      else if (a_brows a <? r) && existsb (fun p => r <? p) (firstn (a_brows a) (sort (firstn s_ports m))) then Undefined
-      else if (a_bcols a <? c) && existsb (fun p => c <? p) (firstn (a_bcols a) (sort (firstn s_ports m))) then Undefined
       else if negb (is_16 (cf_ty cf)) && negb (sr =? sc) then Undefined    (* assert(vnprp != NULL) in build_terms_* *)
       else if negb (length (a_cells a) =? (if a_sdiag a then Nat.min sr sc else sr * sc)) then Undefined
       else Accept
     | None =>
-      if (r <? a_brows a) || (c <? a_bcols a) then Undefined
-      else if negb (length (a_cells a) =? (if a_sdiag a then Nat.min sr sc else sr * sc)) then Undefined
+      if negb (length (a_cells a) =? (if a_sdiag a then Nat.min sr sc else sr * sc)) then Undefined
       else Accept
     end.
 
